@@ -866,7 +866,7 @@ Proof.
            rewrite Ea in A2. repeat split; auto. rewrite A4, Ev. simpl. rewrite select_repeat_true; [reflexivity|].
            apply (HLv k v); [left; reflexivity|exact Ea|exact Ev].
       * destruct (data_copy_plain _ ovm k k' (or_introl Ev) D) as (A1 & A2 & A3 & A4).
-        rewrite Ea in A2. repeat split; auto.
+        rewrite Ea in A2. repeat split; auto. rewrite A4, Ev. reflexivity.
     + destruct Hnc as [Hnc|Hnc]; [inversion Hnc; subst; unfold not_cell in *; congruence|].
       destruct (kvals k) as [v|] eqn:Ev.
       * destruct ocm as [m|].
@@ -875,7 +875,7 @@ Proof.
            rewrite Ea in A2. repeat split; auto. rewrite A4, Ev. simpl. rewrite select_repeat_true; [reflexivity|].
            apply (HLc k v); [left; reflexivity|exact Ea|exact Ev].
       * destruct (data_copy_plain _ ocm k k' (or_introl Ev) D) as (A1 & A2 & A3 & A4).
-        rewrite Ea in A2. repeat split; auto.
+        rewrite Ea in A2. repeat split; auto. rewrite A4, Ev. reflexivity.
     + destruct (data_copy_plain _ None k k' (or_intror eq_refl) D) as (A1 & A2 & A3 & A4).
       rewrite Ea in A2. repeat split; auto.
 Qed.
@@ -932,16 +932,16 @@ Proof.
       destruct (copy_kids _ 0 (Some m) (Some m) (kids o)) as [ks|] eqn:C; [|discriminate].
       intros H; injection H as <-. unfold selection. simpl. rewrite Wp1.
       split; [exact E|]. split; [reflexivity|]. split; [intros j c Hj; destruct j; discriminate|].
-      split; [exact Ek|]. split; [reflexivity|]. split; [rewrite select_nil_r; reflexivity|].
+      split; [simpl; congruence|]. split; [reflexivity|]. split; [rewrite ?select_nil_r; reflexivity|].
       apply (sel_kid_no_cell m m []); [exact Wp2|].
-      apply (copy_kids_sel (length (verts o)) (length (cells o)) _ 0 (Some m) (Some m)); auto.
+      apply (copy_kids_sel (length (verts o)) (length (cells o)) _ _ (Some m) (Some m)) in C; auto.
       simpl. apply select_length. exact E.
     + destruct (copy_kids _ 0 None None (kids o)) as [ks|] eqn:C; [|discriminate].
       intros H; injection H as <-. unfold selection. simpl. rewrite Wp1.
       split; [apply repeat_length|]. split; [reflexivity|]. split; [intros j c Hj; destruct j; discriminate|].
-      split; [reflexivity|]. split; [rewrite select_repeat_true; reflexivity|]. split; [reflexivity|].
+      split; [simpl; congruence|]. split; [rewrite select_repeat_true; reflexivity|]. split; [reflexivity|].
       apply (sel_kid_no_cell _ (mask_or_all None (length (cells o))) []); [exact Wp2|].
-      apply (copy_kids_sel (length (verts o)) (length (cells o)) _ 0 None None); auto.
+      apply (copy_kids_sel (length (verts o)) (length (cells o)) _ _ None None) in C; auto.
       simpl. rewrite count_repeat_true. reflexivity.
   - (* Curve *)
     destruct ovm as [m|]; simpl mask_or_all.
@@ -952,7 +952,7 @@ Proof.
       destruct (copy_kids _ _ (Some m) (Some (cell_mask m (cells o))) (kids o)) as [ks|] eqn:C; [|discriminate].
       intros H; injection H as <-. unfold selection. simpl.
       split; [exact E|]. split; [apply cell_mask_length|]. split; [apply cell_mask_closed|].
-      split; [exact Ek|]. split; [reflexivity|]. split.
+      split; [simpl; congruence|]. split; [reflexivity|]. split.
       * rewrite select_map. change (new_id m) with (new_index m).
         apply new_index_rank_sel; [apply cell_mask_closed|apply cell_mask_length].
       * apply (copy_kids_sel (length (verts o)) (length (cells o)) _ _ (Some m) (Some (cell_mask m (cells o)))) in C; auto.
@@ -963,7 +963,7 @@ Proof.
         destruct (copy_kids _ _ None (Some c) (kids o)) as [ks|] eqn:C; [|discriminate].
         intros H; injection H as <-. unfold selection. simpl.
         split; [apply repeat_length|]. split; [exact E|]. split; [apply closed_all_true; exact Wc|].
-        split; [exact Ek|]. split; [rewrite select_repeat_true; reflexivity|]. split.
+        split; [simpl; congruence|]. split; [rewrite select_repeat_true; reflexivity|]. split.
         -- rewrite rank_all_true_cells; [reflexivity|]. apply Forall_select. exact Wc.
         -- apply (copy_kids_sel (length (verts o)) (length (cells o)) _ _ None (Some c)) in C; auto.
            ++ simpl. rewrite count_repeat_true. reflexivity.
@@ -972,7 +972,7 @@ Proof.
         intros H; injection H as <-. unfold selection. simpl.
         rewrite cell_mask_all_true by exact Wc.
         split; [apply repeat_length|]. split; [apply repeat_length|]. split; [apply closed_all_true; exact Wc|].
-        split; [reflexivity|]. split; [rewrite select_repeat_true; reflexivity|]. split.
+        split; [simpl; congruence|]. split; [rewrite select_repeat_true; reflexivity|]. split.
         -- rewrite select_repeat_true by reflexivity. rewrite rank_all_true_cells; [reflexivity|exact Wc].
         -- apply (copy_kids_sel (length (verts o)) (length (cells o)) _ _ None None) in C; auto.
            ++ simpl. rewrite count_repeat_true. reflexivity.
@@ -986,7 +986,7 @@ Proof.
       destruct (copy_kids _ _ (Some m) (Some (cell_mask m (cells o))) (kids o)) as [ks|] eqn:C; [|discriminate].
       intros H; injection H as <-. unfold selection. simpl.
       split; [exact E|]. split; [apply cell_mask_length|]. split; [apply cell_mask_closed|].
-      split; [exact Ek|]. split; [reflexivity|]. split.
+      split; [simpl; congruence|]. split; [reflexivity|]. split.
       * rewrite select_map. change (new_id m) with (new_index m).
         apply new_index_rank_sel; [apply cell_mask_closed|apply cell_mask_length].
       * apply (copy_kids_sel (length (verts o)) (length (cells o)) _ _ (Some m) (Some (cell_mask m (cells o)))) in C; auto.
@@ -997,7 +997,7 @@ Proof.
         destruct (copy_kids _ _ None (Some c) (kids o)) as [ks|] eqn:C; [|discriminate].
         intros H; injection H as <-. unfold selection. simpl.
         split; [apply repeat_length|]. split; [exact E|]. split; [apply closed_all_true; exact Wc|].
-        split; [exact Ek|]. split; [rewrite select_repeat_true; reflexivity|]. split.
+        split; [simpl; congruence|]. split; [rewrite select_repeat_true; reflexivity|]. split.
         -- rewrite rank_all_true_cells; [reflexivity|]. apply Forall_select. exact Wc.
         -- apply (copy_kids_sel (length (verts o)) (length (cells o)) _ _ None (Some c)) in C; auto.
            ++ simpl. rewrite count_repeat_true. reflexivity.
@@ -1006,7 +1006,7 @@ Proof.
         intros H; injection H as <-. unfold selection. simpl.
         rewrite cell_mask_all_true by exact Wc.
         split; [apply repeat_length|]. split; [apply repeat_length|]. split; [apply closed_all_true; exact Wc|].
-        split; [reflexivity|]. split; [rewrite select_repeat_true; reflexivity|]. split.
+        split; [simpl; congruence|]. split; [rewrite select_repeat_true; reflexivity|]. split.
         -- rewrite select_repeat_true by reflexivity. rewrite rank_all_true_cells; [reflexivity|exact Wc].
         -- apply (copy_kids_sel (length (verts o)) (length (cells o)) _ _ None None) in C; auto.
            ++ simpl. rewrite count_repeat_true. reflexivity.
@@ -1020,4 +1020,337 @@ Proof.
          | |- context [match ?x with _ => _ end] => destruct x
          | |- context [if ?x then _ else _] => destruct x
          end; intros H; try discriminate; injection H as _ <-; reflexivity.
+Qed.
+
+(* ================================================================== values setter, add_data *)
+Lemma set_values_failed o id v e o' : set_values o id v = Failed e o' -> o' = o.
+Proof.
+  unfold set_values. destruct (update_kid _ _ _) as [[ks|e0]|]; intros H; try discriminate; injection H as _ <-; reflexivity.
+Qed.
+
+Lemma kid_ok_set_kids o ks k : kid_ok (set_kids o ks) k <-> kid_ok o k.
+Proof. unfold kid_ok. simpl. reflexivity. Qed.
+
+Lemma update_kid_Forall (P : kid -> Prop) id f : forall ks ks',
+  (forall k k', P k -> f k = Ok k' -> P k') ->
+  update_kid id f ks = Some (Ok ks') -> Forall P ks -> Forall P ks'.
+Proof.
+  induction ks as [|k r IH]; intros ks' Hf H HP; simpl in H; [discriminate|].
+  inversion HP; subst.
+  destruct (Nat.eqb (kid_id k) id).
+  - destruct (f k) as [k'|] eqn:E; [|discriminate]. injection H as <-. constructor; eauto.
+  - destruct (update_kid id f r) as [[r'|e]|] eqn:U; try discriminate. injection H as <-.
+    constructor; [assumption|]. apply IH; auto.
+Qed.
+
+Lemma set_values_wf o id v o' : wf o -> set_values o id v = Done o' -> wf o'.
+Proof.
+  intros (Wc & Wk & Wp). unfold set_values.
+  destruct (update_kid _ _ _) as [[ks|e0]|] eqn:U; intros H; try discriminate. injection H as <-.
+  split; [exact Wc|]. split.
+  - simpl. apply Forall_forall. intros k Hk. apply kid_ok_set_kids. revert k Hk. apply Forall_forall.
+    eapply update_kid_Forall; [|exact U|exact Wk].
+    intros k k' Hok. cbv beta. destruct (format_length _ _ _ v) as [v'|] eqn:F; [|discriminate]. intros E; injection E as <-.
+    unfold kid_ok. simpl. destruct (kassoc k) eqn:Ea; auto; try rewrite Ea in F; simpl in F.
+    + (eapply format_length_ok_length; [|exact F]; discriminate).
+    + (eapply format_length_ok_length; [|exact F]; discriminate).
+  - simpl. intros Hp. destruct (Wp Hp) as [Wp1 Wp2]. split; [exact Wp1|].
+    eapply update_kid_Forall; [|exact U|exact Wp2].
+    intros k k' Hn. cbv beta. destruct (format_length _ _ _ v) as [v'|]; [|discriminate]. intros E; injection E as <-.
+    unfold not_cell in *. simpl. exact Hn.
+Qed.
+
+(* pad / reject, stated on the setter: the first child carrying the id is the one assigned *)
+Lemma update_kid_at id f : forall ks p k,
+  nth_error ks p = Some k -> kid_id k = id ->
+  (forall q k0, q < p -> nth_error ks q = Some k0 -> kid_id k0 <> id) ->
+  update_kid id f ks = Some (match f k with
+                             | Ok k' => Ok (firstn p ks ++ k' :: skipn (S p) ks)
+                             | Err e => Err e
+                             end).
+Proof.
+  induction ks as [|x r IH]; intros [|p] k Hp Hid Hfirst; simpl in Hp; try discriminate.
+  - injection Hp as ->. simpl. rewrite Hid, Nat.eqb_refl. destruct (f k); reflexivity.
+  - simpl. assert (Hx : kid_id x <> id) by (apply (Hfirst 0 x); [lia|reflexivity]).
+    apply Nat.eqb_neq in Hx. rewrite Hx.
+    rewrite (IH p k Hp Hid) by (intros q k0 Hq Hk0; apply (Hfirst (S q) k0); [lia|exact Hk0]).
+    destruct (f k); reflexivity.
+Qed.
+
+Lemma set_values_at o id v p k :
+  nth_error (kids o) p = Some k -> kid_id k = id ->
+  (forall q k0, q < p -> nth_error (kids o) q = Some k0 -> kid_id k0 <> id) ->
+  set_values o id v =
+    match format_length (n_values o (kassoc k)) (kkind k) (kassoc k) v with
+    | Ok v' => Done (set_kids o (firstn p (kids o) ++ set_vals k (Some v') :: skipn (S p) (kids o)))
+    | Err e => Failed e o
+    end.
+Proof.
+  intros Hp Hid Hf. unfold set_values. rewrite (update_kid_at id _ (kids o) p k Hp Hid Hf).
+  destruct (format_length _ _ _ v); reflexivity.
+Qed.
+
+Lemma add_data_wf o id a k v : wf o -> (ok o = OPoints -> a <> ACell) -> wf (state_of (add_data o id a k v)).
+Proof.
+  intros (Wc & Wk & Wp) Ha. unfold add_data.
+  assert (G : forall nk, kid_ok o nk -> kassoc nk = a -> wf (set_kids o (kids o ++ [nk]))).
+  { intros nk Hnk Hna. split; [exact Wc|]. split.
+    - simpl. apply Forall_app. split; [exact Wk|]. constructor; [exact Hnk|constructor].
+    - simpl. intros Hp. destruct (Wp Hp) as [Wp1 Wp2]. split; [exact Wp1|].
+      apply Forall_app. split; [exact Wp2|]. constructor; [|constructor]. unfold not_cell. rewrite Hna. auto. }
+  destruct v as [v|].
+  - destruct (format_length (n_values o a) k a v) as [v'|] eqn:F; simpl.
+    + apply G; [|reflexivity]. unfold kid_ok. simpl. destruct a; auto.
+      * (eapply format_length_ok_length; [|exact F]; discriminate).
+      * (eapply format_length_ok_length; [|exact F]; discriminate).
+    + apply G; [|reflexivity]. unfold kid_ok. simpl. auto.
+  - simpl. apply G; [|reflexivity]. unfold kid_ok. simpl. auto.
+Qed.
+
+Lemma add_data_failed o id a k v e o' : add_data o id a k v = Failed e o' ->
+  ok o' = ok o /\ verts o' = verts o /\ cells o' = cells o /\ exists g, kids o' = kids o ++ [g] /\ kvals g = None.
+Proof.
+  unfold add_data. destruct v as [v|]; [|discriminate].
+  destruct (format_length _ _ _ v); [discriminate|]. intros H; injection H as _ <-. simpl.
+  repeat split; auto. eexists; split; reflexivity.
+Qed.
+
+(* ================================================================== re-open *)
+Lemma take_kid_Forall (P : kid -> Prop) id : forall ks k r, take_kid id ks = Some (k, r) -> Forall P ks -> P k /\ Forall P r.
+Proof.
+  induction ks as [|x xs IH]; intros k r H HP; simpl in H; [discriminate|]. inversion HP; subst.
+  destruct (Nat.eqb (kid_id x) id).
+  - injection H as <- <-. auto.
+  - destruct (take_kid id xs) as [[y r']|] eqn:T; [|discriminate]. injection H as <- <-.
+    destruct (IH y r' eq_refl H3) as [Py Pr]. split; [exact Py|constructor; assumption].
+Qed.
+
+Lemma reorder_Forall (P : kid -> Prop) : forall order ks ks', reorder order ks = Some ks' -> Forall P ks -> Forall P ks'.
+Proof.
+  induction order as [|i r IH]; intros ks ks' H HP; simpl in H.
+  - destruct ks; [injection H as <-; constructor|discriminate].
+  - destruct (take_kid i ks) as [[k rest]|] eqn:T; [|discriminate].
+    destruct (reorder r rest) as [l|] eqn:R; [|discriminate]. injection H as <-.
+    destruct (take_kid_Forall P i ks k rest T HP) as [Pk Pr]. constructor; [exact Pk|]. eapply IH; eauto.
+Qed.
+
+Lemma reopen_wf o order o' : wf o -> reopen o order = Some o' -> wf o'.
+Proof.
+  intros (Wc & Wk & Wp). unfold reopen. destruct (reorder order (kids o)) as [ks|] eqn:R; [|discriminate].
+  intros H; injection H as <-. split; [exact Wc|]. split.
+  - simpl. apply Forall_forall. intros k Hk. apply kid_ok_set_kids. revert k Hk. apply Forall_forall.
+    eapply reorder_Forall; eauto.
+  - simpl. intros Hp. destruct (Wp Hp) as [Wp1 Wp2]. split; [exact Wp1|]. eapply reorder_Forall; eauto.
+Qed.
+
+(* ================================================================== single steps and histories *)
+(* side conditions under which the pinned code behaves (always true for the repaired code) *)
+Definition op_safe (fl : flags) (o : obj) (p : op) : Prop :=
+  match p with
+  | RemoveVertices ix => valueless_safe fl o /\ (f_guard_cells fl = true \/ ok o = OPoints \/ touches o ix)
+  | RemoveCells ix => f_skip_valueless fl = true \/ valued ACell (kids o)
+  | MaskedCopy vm cm => (vm = None \/ cm = None) /\ (ok o = OPoints -> cm = None)
+  | _ => True
+  end.
+
+(* what a failing operation may leave behind *)
+Definition unchanged_or_stub (o o' : obj) : Prop :=
+  ok o' = ok o /\ verts o' = verts o /\ cells o' = cells o /\
+  (kids o' = kids o \/ exists g, kids o' = kids o ++ [g] /\ kvals g = None).
+
+Lemma unchanged_refl o : unchanged_or_stub o o.
+Proof. unfold unchanged_or_stub. auto. Qed.
+
+Lemma step_failed fl o p e o' : wf o -> op_safe fl o p -> step fl o p = Some (Failed e o') -> unchanged_or_stub o o'.
+Proof.
+  intros W HS. destruct p as [ix|ix|id v|id a k v|vm cm|order]; simpl in *.
+  - intros H; injection H as H. destruct HS as [H1 H2].
+    apply remove_vertices_failed in H; auto. subst. apply unchanged_refl.
+  - intros H; injection H as H. destruct (ok o) eqn:Ek.
+    + injection H as _ <-. apply unchanged_refl.
+    + apply remove_cells_failed in H; auto; [subst; apply unchanged_refl|apply wf_kids_len_c; exact W].
+    + apply remove_cells_failed in H; auto; [subst; apply unchanged_refl|apply wf_kids_len_c; exact W].
+  - intros H; injection H as H. apply set_values_failed in H. subst. apply unchanged_refl.
+  - assert (G : Some (add_data o id a k v) = Some (Failed e o') -> unchanged_or_stub o o').
+    { intros E; injection E as E. apply add_data_failed in E as (H0 & H1 & H2 & H3). unfold unchanged_or_stub. auto. }
+    destruct (ok o); destruct a; intros H; try discriminate; apply G; exact H.
+  - intros H; injection H as H. apply masked_copy_failed in H. subst. apply unchanged_refl.
+  - destruct (reopen o order); discriminate.
+Qed.
+
+Lemma step_done_wf fl o p o' : wf o -> op_safe fl o p -> step fl o p = Some (Done o') -> wf o'.
+Proof.
+  intros W HS. destruct p as [ix|ix|id v|id a k v|vm cm|order]; simpl in *.
+  - intros H; injection H as H. destruct (remove_vertices_done fl o ix o' W H) as [I' [_ S]].
+    eapply selection_wf; eauto.
+  - intros H; injection H as H. destruct (ok o) eqn:Ek; [discriminate| |].
+    + destruct (remove_cells_done fl o ix o' (wf_kids_len_c o W) H) as [I' [HN (E1 & E2 & E3 & HK)]].
+      destruct W as (Wc & Wk & Wp). split; [|split].
+      * rewrite E2, E3. apply Forall_select. exact Wc.
+      * apply Forall_forall. intros k' Hin. apply In_nth_error in Hin as [q Hq].
+        destruct (Forall2_nth_r _ _ _ _ _ HK Hq) as [k0 [Hk0 (A1 & A2 & A3 & A4)]].
+        rewrite Forall_forall in Wk. specialize (Wk k0 (nth_error_In _ _ Hk0)).
+        unfold kid_ok in *. rewrite A4, A2, E2, E3. destruct (kassoc k0); simpl; auto.
+        destruct (kvals k0) as [v0|]; simpl; auto.
+        rewrite !select_length by (rewrite keep_mask_length; auto). reflexivity.
+      * intros Hp. congruence.
+    + destruct (remove_cells_done fl o ix o' (wf_kids_len_c o W) H) as [I' [HN (E1 & E2 & E3 & HK)]].
+      destruct W as (Wc & Wk & Wp). split; [|split].
+      * rewrite E2, E3. apply Forall_select. exact Wc.
+      * apply Forall_forall. intros k' Hin. apply In_nth_error in Hin as [q Hq].
+        destruct (Forall2_nth_r _ _ _ _ _ HK Hq) as [k0 [Hk0 (A1 & A2 & A3 & A4)]].
+        rewrite Forall_forall in Wk. specialize (Wk k0 (nth_error_In _ _ Hk0)).
+        unfold kid_ok in *. rewrite A4, A2, E2, E3. destruct (kassoc k0); simpl; auto.
+        destruct (kvals k0) as [v0|]; simpl; auto.
+        rewrite !select_length by (rewrite keep_mask_length; auto). reflexivity.
+      * intros Hp. congruence.
+  - intros H; injection H as H. eapply set_values_wf; eauto.
+  - intros H.
+    assert (G : Some (add_data o id a k v) = Some (Done o') -> (ok o = OPoints -> a <> ACell) -> wf o').
+    { intros E Ha. injection E as E. pose proof (add_data_wf o id a k v W Ha) as X. rewrite E in X. exact X. }
+    destruct (ok o) eqn:Ek; destruct a; try discriminate; apply G; auto; intros; discriminate.
+  - intros H; injection H as H. destruct HS as [H1 H2]. eapply selection_wf; [exact W|]. eapply masked_copy_done; eauto.
+  - destruct (reopen o order) as [o1|] eqn:R; [|discriminate]. simpl. intros H; injection H as <-.
+    eapply reopen_wf; eauto.
+Qed.
+
+Lemma unchanged_wf o o' : wf o -> unchanged_or_stub o o' -> (forall g, kids o' = kids o ++ [g] -> ok o = OPoints -> kassoc g <> ACell) -> wf o'.
+Proof.
+  intros (Wc & Wk & Wp) (E0 & E1 & E2 & E3) Hg. split; [|split].
+  - rewrite E1, E2. exact Wc.
+  - destruct E3 as [E3|[g [E3 Hv]]]; rewrite E3.
+    + apply Forall_forall. intros k Hk. rewrite Forall_forall in Wk. specialize (Wk k Hk).
+      unfold kid_ok in *. rewrite E1, E2. exact Wk.
+    + apply Forall_app. split.
+      * apply Forall_forall. intros k Hk. rewrite Forall_forall in Wk. specialize (Wk k Hk).
+        unfold kid_ok in *. rewrite E1, E2. exact Wk.
+      * constructor; [|constructor]. unfold kid_ok. rewrite Hv. exact I.
+  - rewrite E0, E2. intros Hp. destruct (Wp Hp) as [Wp1 Wp2]. split; [exact Wp1|].
+    destruct E3 as [E3|[g [E3 Hv]]]; rewrite E3; [exact Wp2|].
+    apply Forall_app. split; [exact Wp2|]. constructor; [|constructor]. unfold not_cell. apply (Hg g E3 Hp).
+Qed.
+
+Lemma step_wf fl o p : wf o -> op_safe fl o p -> wf (step_state fl o p).
+Proof.
+  intros W HS. unfold step_state. destruct (step fl o p) as [[o'|e o']|] eqn:S; simpl; [| |exact W].
+  - eapply step_done_wf; eauto.
+  - destruct p as [ix|ix|id v|id a k v|vm cm|order].
+    + pose proof (step_failed fl o _ e o' W HS S) as U. eapply unchanged_wf; eauto.
+      intros g Hg. simpl in S. injection S as S. destruct HS as [H1 H2].
+      apply remove_vertices_failed in S; auto. subst o'. exfalso.
+      apply (f_equal (@length kid)) in Hg. rewrite app_length in Hg. simpl in Hg. lia.
+    + pose proof (step_failed fl o _ e o' W HS S) as U. eapply unchanged_wf; eauto.
+      intros g Hg. exfalso. simpl in S. injection S as S. destruct (ok o) eqn:Ek.
+      * injection S as _ <-. apply (f_equal (@length kid)) in Hg. rewrite app_length in Hg. simpl in Hg. lia.
+      * apply remove_cells_failed in S; auto; [|apply wf_kids_len_c; exact W]. subst o'.
+        apply (f_equal (@length kid)) in Hg. rewrite app_length in Hg. simpl in Hg. lia.
+      * apply remove_cells_failed in S; auto; [|apply wf_kids_len_c; exact W]. subst o'.
+        apply (f_equal (@length kid)) in Hg. rewrite app_length in Hg. simpl in Hg. lia.
+    + simpl in S. injection S as S. apply set_values_failed in S. subst. exact W.
+    + simpl in S.
+      assert (G : Some (add_data o id a k v) = Some (Failed e o') -> (ok o = OPoints -> a <> ACell) -> wf o').
+      { intros E Ha. injection E as E. pose proof (add_data_wf o id a k v W Ha) as X. rewrite E in X. exact X. }
+      destruct (ok o) eqn:Ek; destruct a; try discriminate; apply G; auto; intros; discriminate.
+    + simpl in S. injection S as S. apply masked_copy_failed in S. subst. exact W.
+    + simpl in S. destruct (reopen o order); discriminate.
+Qed.
+
+(* for the repaired code only the masked-copy argument discipline remains as a side condition *)
+Definition copy_args_ok (o : obj) (p : op) : Prop :=
+  match p with MaskedCopy vm cm => (vm = None \/ cm = None) /\ (ok o = OPoints -> cm = None) | _ => True end.
+
+Lemma op_safe_repaired o p : copy_args_ok o p -> op_safe repaired o p.
+Proof.
+  destruct p; simpl; auto. intros _. split; [left; reflexivity|left; reflexivity].
+Qed.
+
+Fixpoint run_ok (fl : flags) (o : obj) (ops : list op) : Prop :=
+  match ops with
+  | [] => True
+  | p :: r => op_safe fl o p /\ run_ok fl (step_state fl o p) r
+  end.
+
+Lemma run_wf fl : forall ops o, wf o -> run_ok fl o ops -> wf (run fl o ops).
+Proof.
+  induction ops as [|p r IH]; intros o W H; simpl in *; [exact W|].
+  destruct H as [H1 H2]. apply IH; [apply step_wf; assumption|exact H2].
+Qed.
+
+Fixpoint copies_ok (o : obj) (ops : list op) : Prop :=
+  match ops with
+  | [] => True
+  | p :: r => copy_args_ok o p /\ copies_ok (step_state repaired o p) r
+  end.
+
+Lemma run_wf_repaired : forall ops o, wf o -> copies_ok o ops -> wf (run repaired o ops).
+Proof.
+  induction ops as [|p r IH]; intros o W H; simpl in *; [exact W|].
+  destruct H as [H1 H2]. apply IH; [apply step_wf; [exact W|apply op_safe_repaired; exact H1]|exact H2].
+Qed.
+
+(* ================================================================== the pinned tree violates atomicity: witness *)
+Definition witness_obj : obj :=
+  {| ok := OCurve; verts := [(0,0,0); (1,0,0); (2,0,0); (3,0,0)]%Z; cells := [[1;2];[2;3]];
+     kids := [{| kid_id := 1; kassoc := AVertex; kkind := KFloat; kvals := Some [Some 10; Some 11; Some 12; Some 13]%Z |}] |}.
+
+Lemma witness_wf : wf witness_obj.
+Proof.
+  split; [|split].
+  - repeat constructor.
+  - repeat constructor.
+  - discriminate.
+Qed.
+
+Lemma witness_as_is :
+  step as_is witness_obj (RemoveVertices [0%Z]) =
+  Some (Failed ValueError
+    {| ok := OCurve; verts := [(1,0,0); (2,0,0); (3,0,0)]%Z; cells := [[1;2];[2;3]];
+       kids := [{| kid_id := 1; kassoc := AVertex; kkind := KFloat; kvals := Some [Some 11; Some 12; Some 13]%Z |}] |}).
+Proof. vm_compute. reflexivity. Qed.
+
+Lemma witness_repaired :
+  step repaired witness_obj (RemoveVertices [0%Z]) =
+  Some (Done
+    {| ok := OCurve; verts := [(1,0,0); (2,0,0); (3,0,0)]%Z; cells := [[0;1];[1;2]];
+       kids := [{| kid_id := 1; kassoc := AVertex; kkind := KFloat; kvals := Some [Some 11; Some 12; Some 13]%Z |}] |}).
+Proof. vm_compute. reflexivity. Qed.
+
+(* ================================================================== remove_cells as a selection *)
+Lemma rcv_cell_sel n cm : forall ks ks', kids_len AVertex n ks ->
+  Forall2 (rcv_kid cm ACell) ks ks' -> Forall2 (sel_kid (repeat true n) cm) ks ks'.
+Proof.
+  intros ks ks' HLv HK. induction HK as [|k k' r r' Hk HK IH]; constructor.
+  - destruct Hk as (A1 & A2 & A3 & A4). unfold sel_kid. repeat split; auto. rewrite A4.
+    destruct (kassoc k) eqn:Ea; simpl; try reflexivity.
+    destruct (kvals k) as [v|] eqn:Ev; simpl; [|reflexivity]. rewrite select_repeat_true; [reflexivity|].
+    apply (HLv k v); [left; reflexivity|exact Ea|exact Ev].
+  - apply IH. intros k0 v0 Hin. apply HLv. right. exact Hin.
+Qed.
+
+Lemma remove_cells_selection fl o I o' : wf o -> remove_cells fl o I = Done o' ->
+  exists I', norm_all (length (cells o)) I = Some I' /\
+             selection (repeat true (length (verts o))) (keep_mask (length (cells o)) I') o o'.
+Proof.
+  intros W H. pose proof W as (Wc & Wk & Wp).
+  destruct (remove_cells_done fl o I o' (wf_kids_len_c o W) H) as [I' [HN (E1 & E2 & E3 & HK)]].
+  exists I'. split; [exact HN|]. unfold selection.
+  split; [apply repeat_length|]. split; [apply keep_mask_length|]. split; [apply closed_all_true; exact Wc|].
+  split; [exact E1|]. split; [rewrite E2, select_repeat_true; reflexivity|]. split.
+  - rewrite E3, rank_all_true_cells; [reflexivity|]. apply Forall_select. exact Wc.
+  - apply rcv_cell_sel; [apply wf_kids_len_v; exact W|exact HK].
+Qed.
+
+(* a vertex mask entry is true exactly for the indices that are not removed *)
+Lemma vmask_true o I' i : nth_error (vmask o I') i = Some true <-> i < length (verts o) /\ ~ In i I'.
+Proof. apply keep_mask_true. Qed.
+
+(* a cell is kept by remove_vertices exactly when none of its vertices is removed *)
+Lemma rv_cell_kept o I' j c : wf o -> nth_error (cells o) j = Some c ->
+  (nth_error (cell_mask (vmask o I') (cells o)) j = Some true <-> Forall (fun v => ~ In v I') c).
+Proof.
+  intros (Wc & _ & _) Hc. rewrite (cell_mask_true _ _ _ _ Hc).
+  rewrite Forall_forall in Wc. specialize (Wc c (nth_error_In _ _ Hc)). unfold cell_ok in Wc.
+  rewrite !Forall_forall. split.
+  - intros H v Hv. apply (proj1 (vmask_true o I' v) (H v Hv)).
+  - intros H v Hv. apply vmask_true. split; [|apply H; exact Hv]. rewrite Forall_forall in Wc. apply Wc. exact Hv.
 Qed.
